@@ -76,7 +76,7 @@ claims = {
          "AST interpretation of the strip table + reachability on go/ssa of GOROOT's runtime", "4 C10"),
  "C11": ("Decides exhaustiveness clauses: every concrete ssa.Instruction of the resolved x/tools (41) is converted, rejected by a failing default, or skipped for a reviewed reason; terminator, type and constant switches reject unknown kinds; "
          "every exported field of each handled instruction (60) is read or listed as meaningless; the converter reads FreeVars, AnonFuncs, Blocks, Signature and Recover of the function; directive values are bounded and unknown hardening names panic; "
-         "trash guards draw from operators for which constant.Compare is false. Decides these clauses, not semantic preservation of flattening/splitting/junk/trash/hardening.",
+         "trash guards draw from operators for which constant.Compare is false; phi values are staged (predecessors assign a staging variable, the phi block copies it); block splitting repairs Preds in every block and never cuts inside the leading phis. Decides these clauses, not semantic preservation of flattening/splitting/junk/trash/hardening.",
          "type-switch case extraction, operand/field coverage and reachability on go/ssa", "4 C11"),
  "C01": ("Decides agreement clauses between garble's renaming outside Go syntax and its single naming decision: hash funnel; the four out-of-syntax rename sites test compilerIntrinsics on the values they rename; only three functions hash a package's ImportPath "
          "and all eight emitters take the path from obfuscatedImportPath; the linker patches read the variables garble exports, the entry-offset formula has the same operator tree on both sides and the patched anchors exist in the pinned toolchain; "
